@@ -351,6 +351,30 @@ def build(ctx, res):
     if text.count(anchor) != 1:
         raise ExtractError("gc: anchor of the rewritten outer loop not found")
     text = text.replace(anchor, "        while vp_i < dirs.len()\n" + GC_INV + "\n            vp_i <= dirs.len(),\n        decreases dirs.len() - vp_i,\n        {\n", 1)
+    res.clauses.update({
+        "view": "sv(store) = (saved manifest (schema, key, files: path -> entry view), next files, on_disk_current); ghost disk VpFs = (manifest text, blob files, "
+                "history of the last read); wf(store, disk) = schema is current && (on_disk_current ==> toml_parse(disk.manifest) == saved manifest)",
+        "Store::open_with_lock / open / try_open": "requires laws; ensures disk files untouched; blocking ==> Some; for the returned store: next empty, schema/key current, "
+                "(entries, on_disk_current) == open_spec(text read, key): the parsed entries iff parse ok && schema == SCHEMA_VERSION && key equal, else (empty, false); wf",
+        "Store::entry": "ensures Some(entry) iff the saved manifest has src, and it is that entry",
+        "Store::keep": "ensures next == (saved has src ? next.insert(src, saved[src]) : next); saved, flag, root, lock untouched",
+        "Store::invalidate": "ensures next == (next has src ? next.insert(src, {fragment: None, ..next[src]}) : next); everything else untouched",
+        "Store::set_dependents / set_tests": "ensures only that field of only next[src] changes (no-op if src absent); everything else untouched",
+        "Store::set_diagnostics": "ensures no-op (store and disk) if src absent or its fragment is None; else only next[src].diagnostics changes: Some(rel) with disk.blobs[rel] == header++blob, "
+                "or None if the blob write failed; disk only grows",
+        "Store::put": "ensures next.remove(src) unchanged, next[src] == {hash, fragment, [], [], None}; fragment Some(rel) ==> disk.blobs[rel] == header++blob; blob None ==> fragment None; "
+                "disk only grows, manifest file untouched; saved/flag untouched",
+        "Store::write_blob": "requires content-addressed disk; ensures Some(rel) ==> disk.blobs[rel] == MAGIC++le32(SCHEMA)++payload, rel == blob_rel(hash(file)), at most that file added; None ==> disk unchanged",
+        "Store::read_blob / load / load_diagnostics": "ensures disk untouched; result == blob_decode(bytes read) if the read delivered the file's bytes, None otherwise; "
+                "blob_decode(d) == Some(p) iff d == MAGIC++le32(SCHEMA)++p (lemma_blob_roundtrip, lemma_blob_decode_only_encoded)",
+        "Store::save": "requires wf; ensures next empty, schema/key kept; if on_disk_current && next == saved.files: manifest, flag and disk untouched (write skipped); else saved.files == old next and "
+                "either (flag true, disk manifest parses to the saved manifest, gc_post) or (flag unchanged, disk unchanged: serializer / write failed); "
+                "wf holds afterwards EXCEPT when the write failed while the flag was true (finding F-C29-save-failed-write, lemma_finding_save_failed_write)",
+        "Store::gc": "ensures manifest file untouched, blob files only removed (never changed/created), every blob referenced (fragment or diagnostics) by the saved manifest is still there. "
+                "The set of referenced paths (iterator chain) is outlined and ASSUMED (vp_referenced); verified: the walk removes nothing in that set",
+        "client": "vp_scenario_roundtrip: open; put; save; reopen; entry; load composes to `what was put is what comes back` when wf survived the save and the reads succeed",
+    })
+    res.samples.append({"obligation": "verus:store:Store::save", "contract": SAVE_SPEC.strip()[:1500]})
     expect = ["Store::open_with_lock", "Store::open", "Store::try_open", "lemma_reopen_same_key", "lemma_reopen_other_key", "lemma_finding_save_failed_write",
               "vp_scenario_roundtrip", "Store::entry", "Store::read_blob", "Store::write_blob", "Store::load", "Store::load_diagnostics",
               "Store::save", "Store::gc", "Store::put", "Store::set_diagnostics", "Store::keep", "Store::invalidate", "Store::set_dependents", "Store::set_tests",
